@@ -181,14 +181,18 @@ def acceptParts (pattern : Bytes) : Bytes × Bytes :=
   | some idx => (pattern.take idx, pattern.drop (idx + 9))
   | Option.none => ([], [])
 
-/-- the loop body of `extractFromAccept` over the remaining items -/
+/-- the first statements of the loop body of `extractFromAccept`: trim, cut the parameters off -/
+def acceptMediaType (item : Bytes) : Bytes :=
+  let mediaType := trimSpace item
+  match indexByte mediaType ';' with
+  | some semi => trimSpace (mediaType.take semi)   -- K13d: OWS before `;` removed as well
+  | Option.none => mediaType
+
+/-- the loop of `extractFromAccept` over the remaining items -/
 def acceptLoop (pfx sfx : Bytes) : List Bytes → Option Bytes
   | [] => Option.none
   | item :: rest =>
-    let mediaType := trimSpace item
-    let mediaType := match indexByte mediaType ';' with
-      | some semi => trimSpace (mediaType.take semi)   -- K13d: OWS before `;` removed as well
-      | Option.none => mediaType
+    let mediaType := acceptMediaType item
     if !hasPrefix mediaType pfx then acceptLoop pfx sfx rest
     else if !hasSuffix mediaType sfx then acceptLoop pfx sfx rest
     else if mediaType.length < pfx.length + sfx.length then acceptLoop pfx sfx rest   -- K13b
